@@ -81,11 +81,13 @@ def patch_info(p):
     codes = [int(c) for c in path.codes]
     kw = getattr(p, "kw", None)
     if kw is None:
-        fc = p.get_facecolor()
-        kw = {"filled": bool(p.get_fill()) and fc[3] != 0}
+        fc = tuple(p.get_facecolor())
+        filled = bool(p.get_fill()) and fc[3] != 0
+        white = filled and tuple(round(c, 6) for c in fc[:3]) == (1.0, 1.0, 1.0)
     else:
-        kw = {"filled": kw.get("facecolor") != "none"}
-    return {"v": verts, "codes": codes, "filled": kw["filled"]}
+        filled = kw.get("facecolor") != "none"
+        white = filled and kw.get("color") == "white"
+    return {"v": verts, "codes": codes, "filled": filled, "white": white}
 
 
 def expected_path(jordans):
@@ -256,6 +258,8 @@ class PlotShape:
             ev, ec = expected_path(cj)
             if not (ps[i]["filled"] and ps[i]["codes"] == ec and _close(ps[i]["v"], ev, exact, ec)):
                 return False, f"filled path of a component does not retrace its boundaries: codes {ps[i]['codes']} expected {ec}"
+            if ps[i]["white"] == pos:
+                return False, "a bounded component must be filled with the fill colour and an unbounded one drawn as a white hole"
             i += 1
             for jc in cj:
                 if i >= len(ps):
